@@ -26,7 +26,8 @@ THEOREMS = [
 RULE = ("Pauli lists on 0-8 qubits with all four phases; arbitrary index subsets/orders (restrict), arbitrary hashable labels "
         "(decompose), final circuits interleaving fresh qubits among the originals across registers (expand), plus count-mismatch and "
         "missing-qubit requests; expand call sequences (expand, edit the returned or the input list in place, expand again); deterministic families (oracle on every case): phased observables over "
-        "one-label / two-label / one-label-per-qubit partitions (every restriction has phase 0), loops expanding one original circuit onto many short-lived "
+        "one-label / two-label / one-label-per-qubit partitions (every restriction has phase 0), partitions in which one label is spelled with several "
+        "Python types on different qubits (0/False/0.0/np.int64(0), 'a'/np.str_('a'), ...: equal labels are one partition, every qubit lands in exactly one restriction), loops expanding one original circuit onto many short-lived "
         "same-size final circuits (each call judged against the final circuit of that call, missing-qubit steps refused); non-trivial = some non-identity letter; distinct by payload")
 ASSUMPTIONS = ["Qiskit PauliList label order (little endian) and group-phase convention are undone by the adapter",
                "qubit identity (Python object identity of Qubit) is modelled by integer tokens"]
@@ -132,6 +133,61 @@ def _odd_label_cases():
                              "always_oracle": True})
 
 
+# labels that are EQUAL (==, same hash: one and the same label for a dict, hence one partition) although their Python types differ -- what a
+# caller gets who computes some labels with numpy / comparisons and writes others as literals.  One row per label, its spellings in a row.
+def _mixed_table():
+    import numpy as np
+    return [
+        [0, False, 0.0, np.int64(0), np.bool_(False), np.float64(0.0)],
+        [1, True, 1.0, np.int64(1), np.uint8(1)],
+        [3, np.int64(3), 3.0, np.float32(3.0)],
+        ["a", np.str_("a")],
+        [2.5, np.float64(2.5)],
+        [(1, 2), (1.0, 2.0), (True, np.int64(2))],
+        [frozenset([1]), frozenset([True]), frozenset([np.int64(1)])],
+        [b"k", np.bytes_(b"k")],
+        [7, 7.0, np.int32(7), np.float64(7.0)],
+    ]
+
+
+def _mixed_label_cases():
+    """Deterministic family (seed independent): decompose_observables over partitions in which ONE label is spelled with several Python
+    types on different qubits (0 / False / 0.0 / np.int64(0), 1 / True / 1.0, 'a' / np.str_('a'), (1, 2) / (1.0, 2.0) ...), contiguous and
+    interleaved, next to the same partitions spelled with one type only.  Equal labels are one label: the qubits of all its spellings form
+    one partition, every qubit lands in exactly one restriction and the restrictions recombine to the original strings."""
+    import random
+    r = random.Random(171715)
+    table = _mixed_table()
+    shapes = [
+        # (rows of the table used as labels, per qubit: [label, spelling])
+        ([0, 1], [[0, 0], [0, 1], [1, 0]]),                       # [0, False, 1]
+        ([1, 0], [[0, 0], [0, 1], [1, 0], [1, 0]]),               # [1, True, 0, 0]
+        ([1, 8], [[0, 0], [0, 2], [1, 0]]),                       # [1, 1.0, 7]
+        ([0, 1, 8], [[0, 0], [1, 0], [0, 1], [1, 1], [2, 0], [0, 2]]),   # [0, 1, False, True, 7, 0.0]
+        ([2, 8], [[0, 1], [0, 0], [1, 0], [1, 0]]),               # [np.int64(3), 3, 7, 7]
+        ([3, 7], [[0, 0], [0, 1], [1, 0]]),                       # ['a', np.str_('a'), b'k']
+        ([0], [[0, 0], [0, 1]]),                                  # one label, two spellings: [0, False]
+        ([0], [[0, 1], [0, 0], [0, 3], [0, 2]]),                  # one label, four spellings
+        ([4, 3], [[0, 0], [1, 1], [0, 1], [1, 0], [0, 0]]),       # interleaved 2.5 / 'a' / np.float64(2.5) / ...
+        ([5, 6], [[0, 0], [1, 0], [0, 1], [1, 1], [0, 2], [1, 2]]),      # containers whose members differ in type
+        ([8, 2, 1], [[0, 0], [1, 0], [2, 0], [0, 1], [1, 1], [2, 1], [0, 2], [1, 2]]),
+        ([1, 0], [[0, 1], [1, 1], [0, 0], [1, 0]]),               # the bool spelling comes first: [True, False, 1, 0]
+        ([7, 4], [[0, 1], [1, 1], [0, 0], [1, 0], [1, 1]]),
+        # controls: the same shapes with one spelling per label
+        ([0, 1], [[0, 0], [0, 0], [1, 0]]),
+        ([1, 0], [[0, 1], [0, 1], [1, 1], [1, 1]]),
+        ([2, 8], [[0, 1], [0, 1], [1, 2], [1, 2]]),
+    ]
+    for t, (rows, per_qubit) in enumerate(shapes):
+        n = len(per_qubit)
+        k = 1 + t % 3
+        obs = [{"l": "".join(r.choice("XYZ") if i == 0 else r.choice("IXYZ") for _ in range(n)), "p": (t + i) % 4} for i in range(k)]
+        mixed = [[rows[c], v] for c, v in per_qubit]
+        yield ("decompose", {"n": n, "obs": obs, "labels": [c for c, _ in per_qubit], "mixed": mixed,
+                             "pool": [repr(table[row][0]) for row in rows], "pool_idx": [],
+                             "spelled": [f"{type(table[row][v]).__name__}:{table[row][v]!r}" for row, v in mixed], "always_oracle": True})
+
+
 def _one_label_cases():
     """Deterministic family (seed independent): decompose_observables with observables that carry EVERY phase, over partitions with
     exactly one distinct label (what the un-separated paths of generate_cutting_experiments / reconstruct_expectation_values pass:
@@ -183,6 +239,7 @@ def _loop_cases():
 
 
 def cases(rng, tier):
+    yield from _mixed_label_cases()
     yield from _loop_cases()
     yield from _one_label_cases()
     yield from _seq_cases()
@@ -313,9 +370,14 @@ def run_real(kind, payload):
         out = observables_restricted_to_subsystem(payload["qubits"], arg)
         return {"ok": _canon_paulis(out)}
     if kind == "decompose":
-        pool = [LABELS[i] for i in payload["pool_idx"]]
-        # equal labels on different qubits are equal objects, not the same object (computed per qubit)
-        labels = [gen.fresh(pool[i]) for i in payload["labels"]]
+        if payload.get("mixed"):
+            # one label spelled with several Python types: payload["labels"] names the label of each qubit, "mixed" its spelling there
+            table = _mixed_table()
+            labels = [table[row][v] for row, v in payload["mixed"]]
+        else:
+            pool = [LABELS[i] for i in payload["pool_idx"]]
+            # equal labels on different qubits are equal objects, not the same object (computed per qubit)
+            labels = [gen.fresh(pool[i]) for i in payload["labels"]]
         out = decompose_observables(_plist(payload["obs"], payload["n"]), labels)
         return {"ok": [[payload["labels"][labels.index(l)], _canon_paulis(v)] for l, v in out.items()]}
     if kind == "expand_loop":
@@ -392,6 +454,14 @@ def oracle(kind, payload):
         if "error" in real:
             return f"decompose_observables raised {real['error']}"
         labels = payload["labels"]
+        if payload.get("mixed"):
+            # equal labels of different Python types are one label (one dict key): every qubit must land in exactly one restriction
+            covered = sum(len(subs[0]["l"]) for _, subs in real["ok"]) if payload["obs"] else payload["n"]
+            if covered != payload["n"]:
+                return (f"decompose_observables over the labels {payload['spelled']} (equal labels spelled with different types are one "
+                        f"label): the returned restrictions {[[payload['pool'][lab], [s['l'] for s in subs]] for lab, subs in real['ok']]} "
+                        f"cover {covered} of {payload['n']} qubits -- they do not recombine to the original strings "
+                        f"{[o['l'] for o in payload['obs']]} (qubit 0 first)")
         for o_idx, o in enumerate(payload["obs"]):
             rebuilt = [None] * payload["n"]
             for lab, subs in real["ok"]:
